@@ -46,6 +46,7 @@ var corpusScenarios = []corpusScenario{
 	{"take-amount-base-prefix", false, corpusTakeBasePrefix},
 	{"criteria-timestamp-range", false, corpusCriteriaTimestampRange},
 	{"utf8-length-limits", false, corpusUTF8LengthLimits},
+	{"address-spellings", false, corpusAddressSpellings},
 }
 
 func init() { QuickCounts["corpus"] = len(corpusScenarios) }
@@ -646,7 +647,7 @@ func corpusCriteriaTimestampRange(c Cfg) *Result {
 func corpusUTF8LengthLimits(c Cfg) *Result {
 	g := NewG(c, chain.Options{GenesisTime: T0})
 	a := g.App
-	const wide = "森" // 3 bytes
+	const wide = "森"                                                          // 3 bytes
 	over := func(limit int) string { return strings.Repeat(wide, limit/3+1) } // chars <= limit < bytes
 	at := func(limit int) string { return strings.Repeat(wide, limit/3) + strings.Repeat("x", limit%3) }
 	bad := func(what string) string {
@@ -681,5 +682,59 @@ func corpusUTF8LengthLimits(c Cfg) *Result {
 	g.Do(a.MsgBasketCreate(2, "UTF", at(256), "C", []string{cid}, true, nil, g.basketFee(g.V())), good("basket description"))
 	g.Commit()
 	g.GenesisRT("after multi-byte strings at the byte limits")
+	return g.Finish()
+}
+
+// ---- address-spellings (C01 / C03 / C08) ----------------------------------------------------------------
+// A bech32 address is valid in lower case and in upper case.  ValidateBasic of Send / UpdateClassAdmin /
+// UpdateProjectAdmin / UpdateCurator compares the two address STRINGS, so "recipient = the sender's own address in
+// upper case" reaches the handler as a self-send: it must neither create nor destroy credits.  Governance handlers
+// that compare the authority as a string must reject the upper-case spelling; the two that compare bytes accept it.
+
+func corpusAddressSpellings(c Cfg) *Result {
+	g := NewG(c, chain.Options{GenesisTime: T0})
+	a := g.App
+	up := strings.ToUpper
+	g.Begin(g.now.Add(6 * time.Second))
+	cid, pid, denom := g.corpusWorld()
+	res := g.Do(a.MsgBasketCreate(2, "SPL", "basket", "C", []string{cid}, true, nil, g.basketFee(g.V())), "basket SPL")
+	bd := respField(res, "basket_denom")
+	g.Do(a.MsgSendCredits(0, 1, denom, "5", "", "", ""), "an ordinary send")
+	self := a.MsgSendCredits(0, 0, denom, "10", "", "", "")
+	self.Recipient = up(self.Sender)
+	g.Do(self, "tradable self-send, recipient = the sender's own address in UPPER CASE (must not change any total)")
+	self2 := a.MsgSendCredits(0, 0, denom, "3", "2", "US-WA", "self")
+	self2.Recipient = up(self2.Sender)
+	g.Do(self2, "tradable + retired self-send in two spellings (acts as a retirement of 2)")
+	other := a.MsgSendCredits(0, 1, denom, "1", "", "", "")
+	other.Recipient = up(other.Recipient)
+	g.Do(other, expectNote(true, "C03", "send-to-upper-case-recipient-rejected", "send to another account spelled in upper case"))
+	ca := a.MsgUpdateClassAdmin(0, cid, 0)
+	ca.NewAdmin = up(ca.Admin)
+	g.Do(ca, "class admin 'transferred' to the admin's own address in upper case (no-op)")
+	pa := a.MsgUpdateProjectAdmin(0, pid, 0)
+	pa.NewAdmin = up(pa.Admin)
+	g.Do(pa, "project admin 'transferred' to the admin's own address in upper case (no-op)")
+	cu := a.MsgBasketUpdateCurator(2, bd, 2)
+	cu.NewCurator = up(cu.Curator)
+	g.Do(cu, "curator 'changed' to the curator's own address in upper case (no-op)")
+	g.Do(a.MsgUpdateClassAdmin(0, cid, 0), "same with identical strings: rejected by ValidateBasic")
+	g.Commit()
+	g.Begin(g.nextTime())
+	al := a.MsgSetClassCreatorAllowlist(true)
+	al.Authority = up(al.Authority)
+	g.Do(al, expectNote(false, "C08", "upper-case-authority-accepted", "allowlist toggle with the authority in upper case (string comparison)"))
+	ad := a.MsgAddAllowedDenom("uatom", "ATOM", 6)
+	ad.Authority = up(ad.Authority)
+	g.Do(ad, expectNote(false, "C08", "upper-case-authority-accepted", "allowed denom with the authority in upper case (string comparison)"))
+	bf := a.MsgUpdateBasketFee(nil)
+	bf.Authority = up(bf.Authority)
+	g.Do(bf, expectNote(false, "C08", "upper-case-authority-accepted", "basket fee with the authority in upper case (string comparison)"))
+	fp := a.MsgGovSetFeeParams("0.01", "0.01")
+	fp.Authority = up(fp.Authority)
+	g.Do(fp, "fee params with the authority in upper case (the handler compares decoded bytes)")
+	g.Do(a.MsgSendCredits(0, 1, denom, "1", "", "", ""), "an ordinary send afterwards")
+	g.Commit()
+	g.GenesisRT("after spelled messages")
 	return g.Finish()
 }
